@@ -57,7 +57,7 @@ var c10Exprs = []string{
 	"$x|escapeUri", "$x|noAutoescape", "$x|id", "$a.x|escapeUri", "$y|truncate:5", "$y|truncate:6",
 }
 
-var c10Tags = []string{"<b>", "</b>", "<br/>", "<a href=\"u\">", "<a class=\"k\">", "</a>", "<i>", "<img src=\"s\"/>", "<a href=\"u\">", "<span>", "</span>", "<a_1>"}
+var c10Tags = []string{"<b>", "</b>", "<br/>", "<a href=\"u\">", "<a class=\"k\">", "</a>", "<i>", "<img src=\"s\"/>", "<a href=\"u\">", "<span>", "</span>", "<a_1>", "<B>", "<A HREF=\"u\">", "<a Href=\"u\">", "<BR/>"}
 var c10Words = []string{"Hello ", "you have ", " new ", "items", ", ", "!", " and ", "é ", "{sp}", "x_1 ", "{lb}0{rb} ", "{lb}NAME{rb}", "{lb}", "{rb} ", "a{nil}b"}
 
 // c10Cmds are commands that may stand inside a message body (they have attributes of their own).
@@ -489,6 +489,37 @@ func c10Exec(cs *c10Case, plan *simrt.MapPlan, u *wk.Unit) *wk.Failure {
 				return mk("id insensitive to placeholder structure", fmt.Sprintf("a message with one placeholder used twice and the same message with a print directive on the second use (two distinct placeholders) share the id %d (%q vs %q)", va.Msgs[0].ID, va.Msgs[0].PH, vb.Msgs[0].PH))
 			}
 			return nil
+		case "tag-case", "meaning-whitespace":
+			if len(m.Body) > 0 && m.Body[0].T == "plural" {
+				return nil
+			}
+			var pairs [][2]msgSpec
+			if cs.Variant == "tag-case" {
+				// a tag used twice, against the same tag once in another letter case: two distinct placeholders
+				for _, tg := range [][2]string{{"<a href=\"u\">", "<a HREF=\"u\">"}, {"<b>", "<B>"}, {"<span class=\"k\">", "<span class=\"K\">"}} {
+					a, b := m, m
+					a.Body = append(append([]msgPart{}, m.Body...), msgPart{T: "tag", S: tg[0]}, msgPart{T: "tag", S: tg[0]})
+					b.Body = append(append([]msgPart{}, m.Body...), msgPart{T: "tag", S: tg[0]}, msgPart{T: "tag", S: tg[1]})
+					pairs = append(pairs, [2]msgSpec{a, b})
+				}
+			} else {
+				for _, mg := range [][2]string{{"noun", "noun "}, {"noun", " noun"}, {"a b", "a  b"}, {"a b", "a\tb"}, {"x", "x\u00a0"}, {" ", "  "}} {
+					a, b := m, m
+					a.Meaning, b.Meaning = mg[0], mg[1]
+					pairs = append(pairs, [2]msgSpec{a, b})
+				}
+			}
+			for _, pr := range pairs {
+				va, _ := observeMsgCase(bundleFor("app.m", "t", "m.soy", []msgSpec{pr[0]}), simrt.CanonicalPlan())
+				vb, _ := observeMsgCase(bundleFor("app.m", "t", "m.soy", []msgSpec{pr[1]}), simrt.CanonicalPlan())
+				if !va.Accept || !vb.Accept || len(va.Msgs) != 1 || len(vb.Msgs) != 1 {
+					continue
+				}
+				if va.Msgs[0].ID == vb.Msgs[0].ID {
+					return mk("id insensitive to "+cs.Variant, fmt.Sprintf("two messages that differ (%s: %q vs %q) share the id %d (%q vs %q)", cs.Variant, pr[0].source(), pr[1].source(), va.Msgs[0].ID, va.Msgs[0].PH, vb.Msgs[0].PH))
+				}
+			}
+			return nil
 		case "text-pairs":
 			if len(m.Body) > 0 && m.Body[0].T == "plural" {
 				return nil
@@ -743,7 +774,7 @@ func C10(c *wk.Ctx) {
 				u.Counters["check_context_nested"]++
 			}
 			// (e) sensitivity
-			for _, v := range []string{"text", "meaning", "placeholder", "plural-structure", "last-char", "meaning-last-char", "text-pairs", "directive", "nested-placeholder"} {
+			for _, v := range []string{"text", "meaning", "placeholder", "plural-structure", "last-char", "meaning-last-char", "text-pairs", "directive", "nested-placeholder", "tag-case", "meaning-whitespace"} {
 				do(&c10Case{Msg: m, Check: "sensitivity", Variant: v}, nil)
 			}
 			if mi == 0 {
